@@ -38,7 +38,38 @@ _LEADING_WHITESPACE = re.compile(r'\s*')
 
 def _unfold_continuations(code_string):
   """Removes any backslash line continuations from the code."""
-  return code_string.replace('\\\n', '')
+  if '\\\n' not in code_string:
+    return code_string
+
+  # A backslash-newline inside a string literal or at the end of a comment is
+  # not a line continuation. Collect the rows whose line break lies inside such
+  # a token; only the other rows are unfolded.
+  protected_rows = set()
+  fstring_start_rows = []
+  fstring_tokens = tuple(
+      getattr(tokenize, name) for name in ('FSTRING_START', 'FSTRING_END')
+      if hasattr(tokenize, name))
+  try:
+    for tok in tokenize.generate_tokens(io.StringIO(code_string).readline):
+      if tok.type == tokenize.COMMENT:
+        protected_rows.add(tok.start[0])
+      elif tok.type == tokenize.STRING:
+        protected_rows.update(range(tok.start[0], tok.end[0]))
+      elif fstring_tokens and tok.type == fstring_tokens[0]:
+        fstring_start_rows.append(tok.start[0])
+      elif fstring_tokens and tok.type == fstring_tokens[1]:
+        if fstring_start_rows:
+          protected_rows.update(range(fstring_start_rows.pop(), tok.end[0]))
+  except (tokenize.TokenError, IndentationError, SyntaxError):
+    # Incomplete or oddly indented code (e.g. a lambda cut out of its
+    # statement). Rows seen so far are still handled properly.
+    pass
+
+  lines = code_string.splitlines(True)
+  for i, line in enumerate(lines):
+    if line.endswith('\\\n') and (i + 1) not in protected_rows:
+      lines[i] = line[:-2]
+  return ''.join(lines)
 
 
 def dedent_block(code_string):
